@@ -132,6 +132,45 @@ Definition nth_step (s : step_src) (k : nat) : T :=
   | SHz rate ctl p => ndiv N (ctl (p + k)%nat) rate
   end.
 
+(* --- control signals built from dasp_signal's own sources and adaptors (mono f64 frames) ----
+   For the oscillator the control is just the frame sequence it yields; these definitions say which
+   sequence the adaptors define, and how often the underlying parts have been called after the
+   control has yielded k frames.
+     FromIterator::next : the iterator's items, then Frame::EQUILIBRIUM (0.0) for ever; one item is
+       fetched at construction and one more per yielded frame until the iterator returns None.
+     Gen / GenMut::next : one closure call per frame.
+     AddAmp / MulAmp / ZipMap::next : `op(self.a.next(), self.b.next())` — BOTH parts are pulled on
+       every frame, whether or not one of them is exhausted (is_exhausted plays no role in next).
+     ScaleAmp / OffsetAmp::next : `self.signal.next() * amp` / `+ offset` (f64: Sample::mul_amp / add_amp). *)
+Inductive ctl_shape :=
+| CFin                           (* from_iter(b) alone *)
+| CGen                           (* gen / gen_mut closure alone *)
+| CAdd | CMul                    (* add_amp / mul_amp of the two *)
+| CZip (f : T -> T -> T).        (* zip_map with closure f *)
+Inductive ctl_top := TNone | TScale (t : T) | TOffset (t : T).
+
+Definition fin_frame (b : list T) (k : nat) : T := nth k b (nof_Z N 0).
+Definition gen_frame (a : list T) (k : nat) : T := nth k a (nof_Z N 0).
+
+(* [fin_first] = the finite part is the receiver: `fin.op(gen)` instead of `gen.op(fin)` *)
+Definition ctl_frame (sh : ctl_shape) (fin_first : bool) (tp : ctl_top) (a b : list T) (k : nat) : T :=
+  let x := gen_frame a k in
+  let y := fin_frame b k in
+  let c := match sh with
+           | CFin => y
+           | CGen => x
+           | CAdd => if fin_first then nadd N y x else nadd N x y
+           | CMul => if fin_first then nmul N y x else nmul N x y
+           | CZip f => if fin_first then f y x else f x y
+           end in
+  match tp with TNone => c | TScale t => nmul N c t | TOffset t => nadd N c t end.
+
+(* calls of the closure / of Iterator::next after the control has yielded k frames *)
+Definition gen_calls (sh : ctl_shape) (k : nat) : nat := match sh with CFin => O | _ => k end.
+Definition iter_calls (sh : ctl_shape) (m k : nat) : nat := match sh with CGen => O | _ => S (Nat.min k m) end.
+
 End Model.
 
+Arguments CFin {N}. Arguments CGen {N}. Arguments CAdd {N}. Arguments CMul {N}. Arguments CZip {N}.
+Arguments TNone {N}. Arguments TScale {N}. Arguments TOffset {N}.
 Arguments SConst {N}. Arguments SHz {N}. Arguments src {N}. Arguments next {N}.
